@@ -65,7 +65,11 @@ func CheckImmutable(
 				ctx.currentReceiver = extractReceiverInfo(ctx.pass, node)
 				ctx.currentMethodOf = ""
 				if node.Recv != nil && len(node.Recv.List) > 0 {
-					ctx.currentMethodOf = annotations.ExtractReceiverType(node.Recv.List[0].Type)
+					// the receiver's defined type, however it is spelled (alias, parentheses)
+					ctx.currentMethodOf = util.ExtractTypeName(ctx.pass.TypesInfo.TypeOf(node.Recv.List[0].Type))
+					if ctx.currentMethodOf == "" {
+						ctx.currentMethodOf = annotations.ExtractReceiverType(node.Recv.List[0].Type)
+					}
 				}
 				return true
 
